@@ -198,8 +198,22 @@ Definition expose_hist (bounds : list Z) (counts : list N) (count : N) (sum : Z)
   | Some bs => Some (bs, count, sum)
   end.
 
+(** ** addExponentialHistogramMetric: [buckets[int(Offset)+i+1] = Counts[i]] (Prometheus native histograms index
+    buckets by their upper boundary, OpenTelemetry by the lower one), for the positive and for the negative range. *)
+Fixpoint expo_buckets (offset : Z) (counts : list N) : list (Z * N) :=
+  match counts with
+  | [] => []
+  | c :: r => ((offset + 1)%Z, c) :: expo_buckets (offset + 1)%Z r
+  end.
+
 (** ** info series and scope labels *)
 Definition has_target_info (c : config) : bool := negb (without_target_info c).
 Definition has_scope_info (c : config) : bool := negb (without_scope_info c).
 Definition scope_labels (c : config) (scope_name scope_version : bytes) : option (bytes * bytes) :=
   if without_scope_info c then None else Some (scope_name, scope_version).
+
+(** createInfoMetric / createScopeInfoMetric: the info series exists iff NewDesc accepts its label names;
+    otherwise one error goes to otel.Handle, target_info is switched off for good, and a scope whose info
+    metric cannot be built is skipped altogether (none of its instruments is exposed). *)
+Definition info_labels_ok (utf8_scheme : bool) (attrs : list attr) : bool :=
+  point_exposed utf8_scheme (get_attrs utf8_scheme attrs).
